@@ -113,6 +113,10 @@ def build(tier, rng):
             if not isinstance(s, str):
                 g.fail(f"hash-type:{name}", "hash() did not return a native str", w)
                 continue
+            # sun_md5_crypt: "$md5$" + "" + "$" + digest reads back as the "$$" form with an empty salt (own witness class)
+            sub = ""
+            if name.endswith("sun_md5_crypt") and sm.settings.get("bare_salt") and sm.settings.get("salt") == "":
+                sub = ":bare-empty-salt"
             # implicit / elided encodings really are elided
             if name in G.IMPLICIT_ROUNDS and sm.settings.get("rounds") == G.IMPLICIT_ROUNDS[name]:
                 g.check("rounds=" not in s and (name != "dlitz_pbkdf2_sha1" or s.startswith("$p5k2$$")), f"implicit-rounds:{name}", "default rounds were not elided from the rendered string", w)
@@ -120,7 +124,7 @@ def build(tier, rng):
             o = outcome(verify_both, info, sm.secret, s)
             disabled = bool(getattr(h, "is_disabled", False))
             want = ("ok", (False, False)) if disabled else ("ok", (True, False))
-            g.check(o == want, f"verify:{name}", "produced hash: right password must verify, wrong must not", {**w, "outcome": repr(o)})
+            g.check(o == want, f"verify:{name}{sub}", "produced hash: right password must verify, wrong must not", {**w, "outcome": repr(o)})
             ob = outcome(verify_both, info, sm.secret, s.encode("ascii")) if s.isascii() else o
             g.check(ob == o, f"verify-bytes:{name}", "ASCII-bytes hash verifies differently from the str hash", {**w, "str": repr(o), "bytes": repr(ob)})
             if not info.is_generic:
@@ -138,9 +142,6 @@ def build(tier, rng):
             if not g.check(o[0] == "ok", f"render:{name}", "to_string failed on a parsed hash", {**w, "outcome": repr(o)}):
                 continue
             r = o[1]
-            sub = ""
-            if name.endswith("sun_md5_crypt") and sm.settings.get("bare_salt") and sm.settings.get("salt") == "":
-                sub = ":bare-empty-salt"
             g.check(r == s, f"roundtrip:{name}{sub}", "to_string(from_string(s)) != s", {**w, "rendered": r})
             o2 = outcome(lambda: info.wrap(info.parse(r).to_string()))
             g.check(o2 == ("ok", r), f"idempotent:{name}{sub}", "second parse/render differs from the first", {**w, "first": r, "second": repr(o2)})
@@ -185,6 +186,7 @@ def build(tier, rng):
         "StaticHandler._norm_hash / bcrypt padding repair",
         "hex-digest formats: upper/lower/swapped/half-half case of the hex run; bcrypt family: every value of the padding bits of the 22nd salt character and of the last digest character: if accepted, renders to the canonical string (bit arithmetic oracle), idempotent, verifies the same passwords",
     )
+    canon = {"hexcase_accepted": 0, "hexcase_refused": 0, "padding_accepted": 0, "padding_refused": 0}
     for info in infos:
         name = info.name
         if name in hexcase:
@@ -195,7 +197,9 @@ def build(tier, rng):
                     if info.is_generic:
                         o = outcome(lambda: info.wrap(info.parse(v).to_string()))
                         if o[0] == "exc" and o[3]:
+                            canon["hexcase_refused"] += 1
                             continue  # this letter case is not accepted: outside "well-formed hash it accepts"
+                        canon["hexcase_accepted"] += 1
                         g.check(o == ("ok", sm.hash), f"hexcase-render:{name}", "accepted letter-case variant does not render to the canonical string", {**w, "outcome": repr(o)})
                     o = outcome(verify_both, info, sm.secret, v)
                     if o[0] == "exc" and o[3]:
@@ -219,7 +223,9 @@ def build(tier, rng):
                         g.case((name, which, v))
                         o = outcome(lambda: info.wrap(info.parse(v).to_string()))
                         if o[0] == "exc" and o[3]:
+                            canon["padding_refused"] += 1
                             continue  # refusing set padding bits is also within the property
+                        canon["padding_accepted"] += 1
                         g.check(o == ("ok", s), f"padding-render:{name}:{which}", "set padding bits accepted but not repaired to the canonical string", {**w, "outcome": repr(o)})
                         o = outcome(verify_both, info, sm.secret, v)
                         if o[0] == "exc" and o[3]:
@@ -264,7 +270,9 @@ def build(tier, rng):
                 if o[0] == "ok" and isinstance(o[1], str):
                     r = o[1]
                     o2 = outcome(lambda: info.parse(r))
-                    if g.check(o2[0] == "ok", f"config-reparse:{name}", "rendered config string is refused", {**w, "rendered": r, "outcome": repr(o2)}):
+                    if r.endswith("None") and not cfg.endswith("None"):
+                        g.fail(f"config-render-none:{name}", "to_string() of a parsed digest-less string renders the literal text 'None' in the digest position", {**w, "rendered": r, "reparse": repr(o2)})
+                    elif g.check(o2[0] == "ok", f"config-reparse:{name}", "rendered config string is refused", {**w, "rendered": r, "outcome": repr(o2)}):
                         same = all(getattr(o2[1], k, None) == v for k, v in expected_attrs(sm).items()) and o2[1].checksum is None
                         g.check(same, f"config-fixpoint:{name}{sub}", "rendered config parses to different settings", {**w, "rendered": r})
                         o3 = outcome(lambda: info.wrap(o2[1].to_string()))
@@ -320,7 +328,7 @@ def build(tier, rng):
 
     groups.append(libpass_inspect_group(tier, rng, samples_by, skipped))
     groups.append(phc_group(tier, rng, samples_by, skipped))
-    host = {"generation_seconds": round(t_gen, 2), "generated_hashes": sum(len(v) for v in samples_by.values()), "config_forms_accepted": sorted(f"{a}:{b}" for a, b in accepted_cfg)}
+    host = {"generation_seconds": round(t_gen, 2), "generated_hashes": sum(len(v) for v in samples_by.values()), "config_forms_accepted": sorted(f"{a}:{b}" for a, b in accepted_cfg), "canonical_forms": canon}
     # refusals by the hasher (e.g. bcrypt $2x$) are part of the skipped list, compressed
     seen = set()
     for n in notes:
@@ -540,7 +548,7 @@ def phc_group(tier, rng, samples_by, skipped):
         if not g.check(o[0] == "ok", f"phc-render:{cls.__name__}", "as_str raised", {"record": repr(x), "outcome": repr(o)}):
             continue
         s = o[1]
-        has_v = "$v=" in s.split("$")[2] + "$" if False else s.split("$")[2].startswith("v=") and "," not in s.split("$")[2]
+        has_v = len(s.split("$")) == 6  # "", id, [v=N], params, salt, hash
         g.check(has_v == (cls.version is not None), f"phc-version-field:{cls.__name__}", "optional version field rendered / elided wrongly", {"record": repr(x), "as_str": s})
         o = outcome(inspect_phc, s, cls)
         g.check(o == ("ok", x), f"phc-record:{cls.__name__}", "inspect_phc(x.as_str()) != x", {"record": repr(x), "as_str": s, "outcome": repr(o)})
